@@ -61,6 +61,8 @@ ObsInit == [fkey |-> EmptyMap,     \* future -> Key(type, executor)
             shc |-> {}, shr |-> {},\* <<Key, instance>> of executors whose shutdown() was entered / has returned
             polls |-> EmptyMap, pollerr |-> EmptyMap,   \* executor id -> calls / raising calls of the poll fn
             wasdone |-> EmptyMap,  \* <<thread, f>> -> was f already done when that thread's pending cancel() of it arrived
+            cdepth |-> EmptyMap,   \* <<thread, f>> -> cancel() calls of f that thread is inside of (a done-callback of the
+                                   \* future being cancelled may cancel the same future again: only the outermost counts)
             tmo |-> EmptyMap,      \* executor id -> cancels by the timeout thread that returned True
             scan |-> EmptyMap]     \* executor id -> cancels by CancelOnShutdown.shutdown() that returned True
 
@@ -78,12 +80,18 @@ ObsNext(st, e) ==
     [] e.ev = "ExecShutdownRet" -> [st EXCEPT !.shr = @ \cup {<<Key(e.k, e.c), e.b>>}]
     [] e.ev = "FnCall" /\ e.s = "poll" ->
           [st EXCEPT !.polls = Bump(@, e.c), !.pollerr = IF e.a = 1 THEN Bump(@, e.c) ELSE @]
-    [] e.ev = "CancelArrived" -> [st EXCEPT !.wasdone = Put(@, <<e.thr, e.f>>, e.a = 1)]
+    [] e.ev = "CancelArrived" ->
+          [st EXCEPT !.wasdone = IF Get(st.cdepth, <<e.thr, e.f>>, 0) = 0 THEN Put(@, <<e.thr, e.f>>, e.a = 1) ELSE @,
+                     !.cdepth = Put(@, <<e.thr, e.f>>, Get(st.cdepth, <<e.thr, e.f>>, 0) + 1)]
+    [] e.ev = "NestedCancelRet" \/ (e.ev = "CancelArrivedRet" /\ e.a # 1) ->
+          [st EXCEPT !.cdepth = Put(@, <<e.thr, e.f>>, Max(Get(st.cdepth, <<e.thr, e.f>>, 0) - 1, 0))]
     \* a timeout "succeeded" when the timeout thread's cancel() cancelled a future that was not done yet (cancel() also
     \* answers True on a future somebody else had cancelled already: that is not a timeout)
     [] e.ev = "CancelArrivedRet" /\ e.a = 1 ->
           [st EXCEPT !.tmo = IF e.r = "timeout" /\ e.k = T_TIMEOUT /\ ~Get(st.wasdone, <<e.thr, e.f>>, FALSE) THEN Bump(@, e.c) ELSE @,
-                     !.scan = IF e.b >= 0 THEN Bump(@, e.b) ELSE @]
+                     \* (likewise a shutdown-cancel "succeeded" when the sweep's cancel() cancelled a future that was not done)
+                     !.scan = IF e.b >= 0 /\ ~Get(st.wasdone, <<e.thr, e.f>>, FALSE) THEN Bump(@, e.b) ELSE @,
+                     !.cdepth = Put(@, <<e.thr, e.f>>, Max(Get(st.cdepth, <<e.thr, e.f>>, 0) - 1, 0))]
     [] OTHER -> st
 
 \* ------------------------------------------------------------------ what the events say the numbers must be
